@@ -447,4 +447,8 @@ pub fn run(cfg: &Cfg, rep: &mut Report) {
     let c = random_case(&mut r, kmax);
     check(cfg, rep, &format!("rand:{}", i), &c);
   }
+
+  // thread part: outer, inner and unsubscribing threads on merge_all_threads (baton scheduler)
+  let n = cfg.n(6_000, 250_000);
+  super::thr::campaign(cfg, rep, "thr", n, 0xC05F, &mut |r: &mut Rng| super::thr::random_scen(r, 9), &|o, s| super::thr::flatten_oracle(o, s));
 }
